@@ -15,9 +15,21 @@ CHECKS = {
  'C04': dict(engine='vsched-e2', technique=E2 + "; plus " + E1,
    text="(1) All send/NACK/Unbind/Rebind/Close histories up to the stated depth over a 20-symbol alphabet (late and out-of-window sends, NACKs at and around both window edges, never-sent numbers, unbound SSRC) for buffer sizes 1, 2, 8 (and 1024), RTX on/off, with three padding forms, are executed on the real ResponderInterceptor and every retransmission is compared byte for byte with the packet as originally sent (or its RFC 4588 form). (2) Every schedule up to preemption bound 2 (quick) / 3-4 (thorough) of a writer evicting ring slots while a NACK for those slots is processed asynchronously, optionally racing UnbindLocalStream, Close or a second NACK, is executed under the race detector with the buffer pool modelled as LIFO (immediate recycling).",
    note=TRUST + "retransmissions are recognised at the transport as packets written by goroutines the interceptor started; rtcp.Marshal serialises the NACK that is fed to the RTCP reader.", ref="DESIGN.md 3/C04"),
+ 'C08': dict(engine='vsched-e2', technique=E2,
+   text="All add/build histories up to depth 5-8 over per-family alphabets (sequence offsets from the highest incl. +0x7FFF jumps, duplicates, reordering below the first packet; arrival/report clock steps around the floor, saturation and 64 s wrap edges; 12 small maximum sizes and 1200/70000) for one to three SSRCs are executed on rfc8888.Recorder and, at smaller depth, through the SenderInterceptor under the virtual clock; every report is decoded from its Marshal() bytes by an independent RFC 8888 decoder and compared with a reference on unwrapped numbers (contiguity, end at highest, received flags, ATO, once-received-never-lost, new arrivals present unless pushed out, size limit).",
+   note=TRUST + "the begin of a range is left free (DESIGN.md section 5); ECN bits are not judged.", ref="DESIGN.md 3/C08"),
+ 'C10': dict(engine='vsched-e1', technique=E1,
+   text="For every interceptor of the library (17 kinds, 36 scenarios) a closed harness of 2-3 application threads forced onto the same stream/SSRC (writers, readers, independent RTCP read loops, Unbind/Close, getters, rate changes) plus the interceptor's own goroutines and timer firings is explored over every schedule that departs from the default schedule at most 3 (quick) / 4 (thorough) times; on every schedule the race detector is read, deadlocks, panics and leaked goroutines are detected, and every successfully written packet must reach the transport exactly once with its payload.",
+   note=TRUST + "only concurrency the Interceptor interface permits is generated; map iteration in the code under test is made deterministic (sorted keys), so behaviours that need a particular random map order are not explored.", ref="DESIGN.md 3/C10"),
+ 'C14': dict(engine='vsched-e3', technique=E3 + "; plus explicit-state search over successive batches through one encoder",
+   text="For every (media count, FEC count) in the boundary set x all counterparts (quick) / all 12210 pairs (thorough), three successive batches through one FlexEncoder03 (pooled scratch buffers, coverage reuse), bases 0/1000/65530, header shapes and lengths differing within a batch, all 16^k shape/length assignments for k<=4, plus the interceptor with two FEC streams: every repair packet is parsed by an independent FlexFEC-03 header parser and every packet named in its mask is recovered by XOR and compared byte for byte; masks must name exactly the combined packets, every media packet must be protected, repair packets carry FEC SSRC/PT with consecutive sequence numbers, media first and unmodified.",
+   note=TRUST + "payload bytes are a fixed pattern per (batch,index); the repository's decoder is not used.", ref="DESIGN.md 3/C14"),
  'C15': dict(engine='vsched-e1', technique=E1,
-   text="Every interleaving (all of them for 3 writers x 2 packets: the evidence reports all_interleavings=true; preemption bound 4 for 4 writers) of concurrent writers on two negotiated and one non-negotiated stream of one HeaderExtensionInterceptor is executed for each (extension id, profile, pre-existing extension) configuration, including writers started just below the 2^16 wrap, with uniqueness/consecutiveness/header-preservation checked at the transport and the race detector read after each schedule.",
+   text="Every interleaving (all of them for 3 writers x 2 packets: the evidence reports all_interleavings=true; deviation bound 4 for 4 writers) of concurrent writers on two negotiated and one non-negotiated stream of one HeaderExtensionInterceptor is executed for each (extension id, profile, pre-existing extension) configuration, including writers started just below the 2^16 wrap, with uniqueness/consecutiveness/header-preservation checked at the transport and the race detector read after each schedule.",
    note=TRUST + "rtp.Header.GetExtension/DelExtension are used to read headers at the transport.", ref="DESIGN.md 3/C15"),
+ 'C20': dict(engine='vsched-e3', technique="exhaustive enumeration of the finite input space on the real code: " + E3,
+   text="Unwrapper: every (previous result p in [0,2^17), next uint16) pair - 8.6e9 Unwrap calls on the real type, reached through the public API by walking one instance and applying every next to a copy - plus regions around 2^31/2^32 (thorough: 2^47, 2^48, 2^51), all boundary-input sequences of length <=3 (4) from every p and all short true-value streams. NTP: every nanosecond of 2^16-ns (thorough 2^20-ns) windows around 52 anchors (epoch, powers of two, float64 rounding boundaries, second and 65536-second window boundaries, end of era 0): monotonicity over adjacent nanoseconds, 64-bit round trip within 1 us, 32-bit round trip within 1/65536 s for references in the same window.",
+   note="Pure functions (no scheduler involved); results hold for amd64 float-to-integer conversion; NTP instants outside the enumerated windows are not covered.", ref="DESIGN.md 3/C20"),
 }
 checks = []
 for pid in sorted(CHECKS):
